@@ -38,7 +38,7 @@ type c11Plan struct {
 
 var c11Kinds = []string{
 	"other-polynomial", "wrong-recipient-key", "truncated", "bitflip", "random-bytes", "empty-json", "null-deal", "deal-without-body", "wrong-index",
-	"commits-shorter", "commits-longer", "commits-swapped", "commits-garbage", "response-complaint", "response-garbage",
+	"commits-shorter", "commits-longer", "commits-swapped", "commits-garbage", "response-complaint", "response-garbage", "response-surplus-complaint",
 }
 
 func c11Gen(rt *rapid.T) c11Plan {
@@ -185,6 +185,22 @@ func c11Execute(p c11Plan, root string) (obs c11Obs) {
 			}
 			if p.Kind == "response-garbage" {
 				req.Response = []byte(`[{"Index":0,"Response":null},null]`)
+			} else if p.Kind == "response-surplus-complaint" {
+				// the regular responses, all approving, followed by one more: a complaint about the first dealer
+				var rs []map[string]any
+				if err := json.Unmarshal(req.Response, &rs); err != nil {
+					return err
+				}
+				if len(rs) > 0 {
+					extra := map[string]any{}
+					bz, _ := json.Marshal(rs[p.A%len(rs)])
+					_ = json.Unmarshal(bz, &extra)
+					if inner, ok := extra["Response"].(map[string]any); ok {
+						inner["Status"] = false
+					}
+					rs = append(rs, extra)
+				}
+				req.Response, _ = json.Marshal(rs)
 			} else {
 				var rs []map[string]any
 				if err := json.Unmarshal(req.Response, &rs); err != nil {
@@ -294,6 +310,13 @@ func c11Execute(p c11Plan, root string) (obs c11Obs) {
 }
 
 func c11Run(t *testing.T, st *vstat.Stats, p c11Plan) *viol {
+	if p.Kind == "response-surplus-complaint" && p.N == 2 {
+		// with two participants a peer's message store holds exactly one response ((n-1)^2 = n-1 = 1): a surplus response
+		// never reaches the DKG library, with or without a defect, and every private deal was consistent - the statement
+		// does not demand a cancellation here, so nothing is asserted
+		st.Class("discarded:surplus-response-at-n=2")
+		return nil
+	}
 	var obs c11Obs
 	synctest.Test(t, func(t *testing.T) {
 		root := tmpRoot("c11-")
@@ -350,7 +373,7 @@ func c11Run(t *testing.T, st *vstat.Stats, p c11Plan) *viol {
 		}
 	}
 	cls := "malformed"
-	if p.Kind == "other-polynomial" || p.Kind == "wrong-recipient-key" || strings.HasPrefix(p.Kind, "commits-s") || p.Kind == "commits-longer" || p.Kind == "response-complaint" {
+	if p.Kind == "other-polynomial" || p.Kind == "wrong-recipient-key" || strings.HasPrefix(p.Kind, "commits-s") || p.Kind == "commits-longer" || strings.HasPrefix(p.Kind, "response-") && p.Kind != "response-garbage" {
 		cls = "well-formed-but-inconsistent"
 	}
 	st.Class("kind:" + p.Kind)
